@@ -41,6 +41,7 @@ type CPPlan struct {
 	OptimizeOff bool     `json:"optimize_off,omitempty"`
 	Entry       string   `json:"entry"` // call | eval
 	Rich        bool     `json:"rich_fs,omitempty"`
+	LeadBlank   int      `json:"lead_blank,omitempty"` // blank / whitespace-only lines before the package clause of every file
 	EOL         int      `json:"eol,omitempty"`   // line endings of the source files: 0 = LF, 1 = CRLF, 2 = CRLF on some lines
 	Split       int      `json:"split,omitempty"` // functions with index >= Split (when > 0) live in a second file of the package
 }
@@ -139,16 +140,20 @@ func cpRender(p *CPPlan) *cpRendered {
 	r := &cpRendered{Sites: map[int]cpSite{}, ML: map[int]bool{}, HelperLine: map[string]int{}}
 	var bA, bB strings.Builder
 	b := &bA
-	b.WriteString(cpPrelude)
-	line := strings.Count(cpPrelude, "\n")
+	lead := strings.Repeat("\n", p.LeadBlank)
+	if p.Seed%2 == 0 {
+		lead = strings.Repeat(" \t\n", p.LeadBlank)
+	}
+	b.WriteString(lead + cpPrelude)
+	line := p.LeadBlank + strings.Count(cpPrelude, "\n")
 	lineA := 0
 	curFile := "main/a.go"
 	for i, l := range strings.Split(cpPrelude, "\n") {
 		switch strings.TrimSpace(l) {
 		case "return a / b":
-			r.HelperLine["main.hdiv"] = i + 1
+			r.HelperLine["main.hdiv"] = i + 1 + p.LeadBlank
 		case "return p.A":
-			r.HelperLine["main.hattr"] = i + 1
+			r.HelperLine["main.hattr"] = i + 1 + p.LeadBlank
 		}
 	}
 	emit := func(s string) int {
@@ -323,8 +328,8 @@ func cpRender(p *CPPlan) *cpRendered {
 			// the rest of the package lives in a second file with its own line numbers
 			lineA = line
 			b = &bB
-			b.WriteString("package main\nimport \"host\"\nimport \"golang.org/x/exp/slices\"\n")
-			line = 3
+			b.WriteString(lead + "package main\nimport \"host\"\nimport \"golang.org/x/exp/slices\"\n")
+			line = 3 + p.LeadBlank
 			curFile = "main/b.go"
 		}
 		r.FuncFile = append(r.FuncFile, curFile)
@@ -468,6 +473,9 @@ func (e crashpoint) genPlan(r *core.PRNG) *CPPlan {
 	}
 	if r.Chance(1, 5) {
 		p.EOL = 1 + r.Intn(2)
+	}
+	if r.Chance(1, 5) {
+		p.LeadBlank = 1 + r.Intn(4)
 	}
 	for i := 0; i < g.nf; i++ {
 		f := CPFunc{Method: i > 0 && r.Chance(1, 3), Variadic: i > 0 && r.Chance(1, 4)}
@@ -858,6 +866,9 @@ func (crashpoint) Shrink(plan any) []func() any {
 	}
 	if p.EOL != 0 {
 		mod(func(q *CPPlan) { q.EOL = 0 })
+	}
+	if p.LeadBlank != 0 {
+		mod(func(q *CPPlan) { q.LeadBlank = 0 })
 	}
 	if p.Rich {
 		mod(func(q *CPPlan) { q.Rich = false })
